@@ -247,7 +247,7 @@ def run(chk, which="C09"):
     chk.add_evals(evals + nprobe, len(distinct))
     chk.cov["rule"] = ("ordered pairs among Kelvins/Celsius/Fahrenheit, prefixed forms and generated point units (rational scale and origin) x reps {int32,int64,float,double}: every integer in +-2^15 around zero and around "
                        "the target's zero (+ boundary/random floats) is converted with coerce_in<T>/coerce_as<T>/as<T> (and unit-only in/as where the policy admits) and compared with the exact affine map "
-                       "(integral targets judged only when the true result is an integer within a 2^10 margin; floating targets within 6+2 ulp of the largest term); p-q, p+-d, comparisons within and across units; "
+                       "(integral targets judged only when the true result is an integer within a 2^10 margin; floating targets within 6 ulp of the largest term in the common type of the two reps + 1 ulp of the result in the target rep; implicit construction and assignment into floating reps likewise); p-q, p+-d, comparisons within and across units; "
                        "27 compile probes for the non-affine expressions with controls; distinct_nontrivial = instances with judged values + probe kinds")
     chk.notes.update({"instances": len(insts), "values_judged": judged, "probes": nprobe, "rejected_by_library": dropped[:20], "n_rejected": len(dropped)})
     if len(dropped) > len(insts) * (len(flav) + 1) * 0.5:
